@@ -86,12 +86,42 @@ def run(ctx):
                           "includes the page's existing /Rotate (rem_euclid: %s, reads existing rotation: %s): negative or composed "
                           "angles come out wrong" % (bool(rem), reads_rot), cr.where(b))
         ov = [bb for bb in range(len(cr.blocks)) if cr.term(bb)[0] == "assert" and cr.term(bb)[3].startswith("Overflow:Add")]
+        # an addition whose file-controlled operand was first reduced by rem_euclid(<const>) cannot overflow
+        def reduced(op):
+            pl = FL.op_place(op)
+            if pl is None:
+                return True
+            seen0, dr0 = flr.back_slice([pl[0]])
+            reads = False
+            for dd in dr0:
+                if dd[0] == "stmt":
+                    st0 = cr.blocks[dd[1]][0][dd[2]]
+                    for q in [FL.op_place(o) for o in FL.rvalue_operands(st0[2]) if FL.op_place(o)]:
+                        if any(isinstance(p, list) and p[0] == "f" and p[2] == "rotation" for p in q[1]):
+                            reads = True
+            if not reads:
+                return True
+            ds = [d0 for d0 in flr.defs.get(pl[0], ()) if d0[0] in ("stmt", "call")]
+            if len(ds) == 1 and ds[0][0] == "stmt" and cr.blocks[ds[0][1]][0][ds[0][2]][2][0] == "use":
+                return reduced(cr.blocks[ds[0][1]][0][ds[0][2]][2][1])
+            if len(ds) == 1 and ds[0][0] == "call":
+                t0 = cr.term(ds[0][1])
+                if L.is_call_to(t0[1], ["rem_euclid"]) and len(t0[2]) == 2 and t0[2][1][0] == "k" and isinstance(t0[2][1][2], int) \
+                        and 0 < t0[2][1][2] < (1 << 20):
+                    return True
+            return False
+        ov2 = []
+        for bb in ov:
+            adds = [st0 for st0 in cr.blocks[bb][0] if st0[2][0] == "bin" and st0[2][1].startswith("Add")]
+            if not adds or not all(reduced(st0[2][2]) and reduced(st0[2][3]) for st0 in adds):
+                ov2.append(bb)
+        ov = ov2
         if ov:
             ctx.violation("R2", "rotate:sum-cannot-overflow", "`parsed_page.rotation + angle` is an unchecked i32 addition on the /Rotate "
                           "value read from the file: `/Rotate 2147483647` makes the rotate operation panic with an arithmetic overflow "
                           "in debug builds (and wrap in release)", cr.where(ov[0]))
         else:
-            ctx.ok("R2", "rotate:sum-cannot-overflow", "no unchecked addition")
+            ctx.ok("R2", "rotate:sum-cannot-overflow", "no unchecked addition on an unreduced /Rotate value")
     # R3 one constructor for all copy paths
     users = {}
     for fid, fn in facts.fns.items():
